@@ -199,6 +199,77 @@ def check_trio(res, facts):
                 rule.bad(key, "writer, reader and size do not visit the same number of sub-objects: write=%d read=%d size=%d" % (len(w), len(r), len(s)), g["serialize_with_mode"].loc)
 
 
+# ---- R-WHOLE ---------------------------------------------------------------------------------------------
+
+CONTAINERS = ("alloc::vec::Vec<", "alloc::collections::vec_deque::VecDeque<", "alloc::collections::linked_list::LinkedList<", "[T]",
+              "alloc::string::String", "alloc::collections::btree::map::BTreeMap<", "alloc::collections::btree::set::BTreeSet<", "[T; N]",
+              "num_bigint::biguint::BigUint")
+WHOLE_VIEW = {"iter", "as_slice", "as_bytes", "to_bytes_le", "as_ref", "keys_values", "len", "is_empty", "as_str", "make_contiguous"}
+PARTIAL_VIEW = {"as_slices", "as_mut_slices", "first", "last", "split_at", "split_first", "split_last", "get", "take", "skip", "chunks", "front", "back",
+                "first_key_value", "last_key_value", "range", "step_by", "nth", "windows", "pop_front", "pop_back", "peek"}
+
+
+def check_whole(res, facts):
+    """sequence / map serializers write (and size) every element: whatever they iterate over or delegate to is a
+    whole-container view of self"""
+    from rules.c07 import E, show
+    rule = res.rule("R-WHOLE", "container serializers traverse the whole container (no partial view such as as_slices().0 / first / take)", 16)
+    for f in facts.fns(unit="ws", crate="ark_serialize"):
+        if f.kind == "Closure" or f.name not in ("serialize_with_mode", "serialized_size"):
+            continue
+        if not (f.trait_impl or "").endswith("CanonicalSerialize"):
+            continue
+        slf = (f.impl or {}).get("self", "")
+        if not slf.startswith(CONTAINERS):
+            continue
+        key = "ark_serialize|%s|%s" % (slf.split("<")[0].rsplit("::", 1)[-1] if "::" in slf else slf, f.name)
+        sources = []
+        for _, t in f.calls():
+            n = t["f"].get("name")
+            if t.get("mac") or not t["args"]:
+                continue
+            if n in ("serialize_seq", "get_serialized_size_of_seq", "serialize_with_mode", "serialized_size", "map", "next", "sum"):
+                sources.append(E(f, t["args"][0]))
+        verdict, why = None, None
+        n_whole = 0
+        for src in sources:
+            t = src
+            hops = 0
+            while isinstance(t, tuple) and hops < 10:
+                hops += 1
+                if t[0] == "arg":
+                    if t[1] == 1:
+                        n_whole += 1
+                    break
+                if t[0] == "call":
+                    nm = t[1]
+                    if len(t) > 3 and t[3] and nm not in ("next",):
+                        # a component of a call result, e.g. as_slices().0
+                        if nm in PARTIAL_VIEW or True:
+                            verdict, why = "bad", "%s%s" % (nm, "".join("." + x for x in t[3] if isinstance(x, str)))
+                        break
+                    if nm in PARTIAL_VIEW:
+                        verdict, why = "bad", nm
+                        break
+                    if nm in WHOLE_VIEW or nm in ("next", "map", "sum", "is_some"):
+                        if not t[2]:
+                            break
+                        t = t[2][0]
+                        continue
+                    if verdict is None:
+                        verdict, why = "undecided", nm
+                    break
+                break
+        if verdict == "bad":
+            rule.bad(key, "the data written / sized comes from `%s` of self, a partial view of the container: elements outside it are silently dropped, so the encoding does not round-trip" % why, f.loc)
+        elif verdict == "undecided":
+            rule.undecided(key, "source of the elements goes through `%s`, not known to be a whole-container view" % why, f.loc)
+        elif n_whole:
+            rule.ok(key, "iterates / delegates over all of self", f.loc)
+        else:
+            rule.undecided(key, "no element source found (%s)" % [show(x)[:60] for x in sources], f.loc)
+
+
 def run(ctx, res):
     facts = ctx.facts(UNITS)
     res.analysed = facts.stats()
@@ -208,6 +279,7 @@ def run(ctx, res):
     check_taint(res, facts)
     check_errarms(res, facts)
     check_trio(res, facts)
+    check_whole(res, facts)
     return {
         "level": "other",
         "explanation": "Dataflow rules over the MIR of every CanonicalSerialize/CanonicalDeserialize impl in the workspace, the curve crates and the derive-macro output compiled in /verif/witness/shapes: mode-flag propagation, stream-length taint to allocation sinks, presence of error arms for malformed input, and agreement of writer/reader/size visiting order. Does NOT decide value equality of a round trip nor exact byte counts.",
